@@ -16,3 +16,11 @@ func VerifMemReset() {
 	m := Mem.(*memFS)
 	m.files = map[string]*memFile{}
 }
+
+// VerifMmapInfo exposes the bookkeeping of a memory-mapped file (harness only).
+func VerifMmapInfo(f File) (size, mmapSize int64, dataLen int) {
+	if m, ok := f.(*osMMapFile); ok {
+		return m.size, m.mmapSize, len(m.data)
+	}
+	return -1, -1, -1
+}
